@@ -47,14 +47,14 @@ type site struct {
 }
 
 type docGen struct {
-	c      *Chooser
-	b      bytes.Buffer
-	sites  []site
-	ws     int // white-space density 0..3
-	target int
-	maxDep int
-	strMax int
-	record bool
+	c       *Chooser
+	b       bytes.Buffer
+	sites   []site
+	ws      int // white-space density 0..3
+	target  int
+	maxDep  int
+	strMax  int
+	record  bool
 	keyPool [][]byte
 }
 
@@ -338,12 +338,12 @@ func (g *docGen) object(depth, n int) {
 
 // DocSpec configures GenDoc.
 type DocSpec struct {
-	Family int
-	Target int  // approximate size in bytes
-	WS     int  // white-space density 0..3 (-1: draw)
-	OneLine bool // no LF inside (NDJSON line)
-	Record bool // record token sites
-	StrMax int
+	Family   int
+	Target   int  // approximate size in bytes
+	WS       int  // white-space density 0..3 (-1: draw)
+	OneLine  bool // no LF inside (NDJSON line)
+	Record   bool // record token sites
+	StrMax   int
 	MaxDepth int
 }
 
